@@ -22,10 +22,11 @@ RULE = ('every sequence of import statements of length <= k (exhaustive) over th
 
 ENTRY = ['import bs4', 'from bs4 import BeautifulSoup', 'import bs4.element', 'import soupsieve', 'import soupsieve.css_match',
          'import soupsieve.css_parser', 'import soupsieve.css_types', 'from soupsieve import *']
-PROBE = ("import bs4, soupsieve; s = bs4.BeautifulSoup('<div><p id=a>x</p><p class=b>y</p><input type=radio></div>', 'html.parser'); "
-         "a = [str(e) for e in s.select('div > p:nth-child(2), :indeterminate')]; "
-         "b = [str(e) for e in soupsieve.select('div > p:nth-child(2), :indeterminate', s)]; "
-         "print('RESULT', a == b, a)")
+PROBE = ("import bs4, soupsieve; s = bs4.BeautifulSoup('<!DOCTYPE html><!-- c --><html><body><div><p id=a><!--x--></p><p class=b>y</p>"
+         "<input type=radio></div></body></html>', 'html.parser'); "
+         "q = 'div > p:nth-child(2), :indeterminate, :root, p:empty, p:-soup-contains(x)'; "
+         "a = [str(e)[:20] for e in s.select(q)]; b = [str(e)[:20] for e in soupsieve.select(q, s)]; "
+         "print('RESULT', a == b, len(a), a)")
 
 
 def run_seq(seq):
@@ -54,7 +55,7 @@ def run(chk):
     for r in results:
         if r['seq'][0] < 3 or (any(i < 3 for i in r['seq']) and any(i >= 3 for i in r['seq'])):
             nontriv += 1
-        ok = r['rc'] == 0 and not r['stdout_extra'] and not r['stderr'].strip() and r['result'] and r['result'].startswith('RESULT True')
+        ok = r['rc'] == 0 and not r['stdout_extra'] and not r['stderr'].strip() and r['result'] and r['result'].startswith('RESULT True 4 ')
         if ok:
             ref = ref or r['result']
             ok = r['result'] == ref
